@@ -13,10 +13,27 @@ import (
 )
 
 type replayDoc struct {
-	Property string `json:"property"`
-	Harness  string `json:"harness"`
-	ID       string `json:"id"`
+	Property string      `json:"property"`
+	Harness  string      `json:"harness"`
+	ID       string      `json:"id"`
+	Nondet   []NondetRec `json:"nondet"`
+	Fired    []int       `json:"timers_fired"`
 }
+
+// usesClock: the counterexample read the symbolic clock, so the native build needs the time shim.
+func (d *replayDoc) usesClock() bool {
+	for _, n := range d.Nondet {
+		if n.Kind == "clock" {
+			return true
+		}
+	}
+	return len(d.Fired) > 0
+}
+
+// clockFiles are the repo files whose "time" import is redirected to the virtual clock.
+var clockFiles = []string{"cache/cache.go", "func.go", "memoize.go"}
+
+var timeImportRe = regexp.MustCompile(`(?m)^(\s*)"time"\s*$`)
 
 // findHarnessDir locates the harness dir that declares the entry function.
 func findHarnessDir(verif, harness string) (string, string, error) {
@@ -85,6 +102,22 @@ func main() {
 		files, _ := filepath.Glob(filepath.Join(verif, "harness", d, "*.go"))
 		for _, f := range files {
 			repl[filepath.Join(repo, r, filepath.Base(f))] = f
+		}
+	}
+	if doc.usesClock() {
+		files, _ := filepath.Glob(filepath.Join(verif, "harness", "zzvtime", "*.go"))
+		for _, f := range files {
+			repl[filepath.Join(repo, "zzvtime", filepath.Base(f))] = f
+		}
+		for i, rel := range clockFiles {
+			src, err := os.ReadFile(filepath.Join(repo, rel))
+			if err != nil {
+				continue
+			}
+			out := timeImportRe.ReplaceAll(src, []byte(`${1}time "`+RepoMod+`/zzvtime"`))
+			dst := filepath.Join(tmp, fmt.Sprintf("clock%d.go", i))
+			os.WriteFile(dst, out, 0o644)
+			repl[filepath.Join(repo, rel)] = dst
 		}
 	}
 	ovData, _ := json.Marshal(map[string]interface{}{"Replace": repl})
